@@ -547,7 +547,7 @@ def translate(repo_src, extra_path):
     d.append('Import ListNotations.\nOpen Scope N_scope.\n')
     o.append(HEAD % 'Statements (from the docstring schemas / Lib/Extra.v) and their proofs.')
     o.append('From Coq Require Import NArith List Bool.')
-    o.append('From Pi2 Require Import ML.Syntax ML.Subst Lib.Term Lib.TermFacts Lib.Tactics Lib.Extra Gen.PropLib.')
+    o.append('From Pi2 Require Import ML.Syntax ML.Subst Lib.Term Lib.TermFacts Lib.Tactics Lib.Extra Lib.Embed Lib.ReplayTactics Gen.PropLib.')
     o.append('Import ListNotations.\nOpen Scope N_scope.\n')
     for cls, nm, body, k in ax_defs:
         d.append(f'(** {cls}._axioms as built by {cls}.__init__ *)')
@@ -558,6 +558,7 @@ def translate(repo_src, extra_path):
                      f'Proof. intros axs H. eapply ax_incl_app_l. exact H. Qed.\n'
                      f'#[global] Hint Resolve {nm}_parent : plwf.\n')
     spec_names, wf_names, unspecified = [], [], []
+    sok_names, replay_names = [], []
     for n in out_order:
         m = methods[n]
         params = ' '.join(f'({v(pn)} : {pt})' for pn, pt, _ in m.params)
@@ -604,6 +605,30 @@ def translate(repo_src, extra_path):
         o.append(f'Proof. lib_wf {n}. Qed.')
         o.append(f'#[global] Hint Resolve {n}_wf : plwf.')
         wf_names.append(f'{n}_wf')
+        # sok: the returned term stays in C02's propositional fragment; replays: compiled bytes execute
+        pats_ok = ''.join(f'pok {v(pn)} = true -> ' for pn, pt, _ in m.params if pt == 'pat')
+        hy_sok = ''.join(f'sok {v(t)} -> ' for t in thunks)
+        o.append(f'Lemma {n}_sok :\n  forall {qs}, {pats_ok}{hy_sok}sok {call}.' if qs else f'Lemma {n}_sok : sok {call}.')
+        o.append(f'Proof. lib_sok {n}. Qed.')
+        o.append(f'#[global] Hint Resolve {n}_sok : plsok.')
+        sok_names.append(f'{n}_sok')
+        incl = f'ax_incl {class_ax_name[m.cls]} axs -> '
+        if m.spec_kind == 'docstring':
+            def var2(x, m=m):
+                return v(m.binding[x]) if x in m.binding else 's_' + x
+            svars = ' '.join('s_' + x for x in m.prem_vars)
+            hyps = ''.join(f'conc {v(t)} = Some {S.to_coq(p_, var2)} -> owf axs {v(t)} -> sok {v(t)} ->\n    '
+                           for t, p_ in zip(thunks, m.schema['premises']))
+            o.append(f'Lemma {n}_replays :\n  forall (axs : list pat) {qs}' + (f' ({svars} : pat)' if svars else '') +
+                     f', {incl}{pats_ok}\n    {hyps}compiles_to axs {call} {S.to_coq(m.schema["conclusions"][0], var2)}.')
+            o.append(f'Proof. lib_replays {n}_spec {n}_wf {n}_sok. Qed.')
+            replay_names.append(f'{n}_replays')
+        elif m.spec_kind == 'extra':
+            hyps = ''.join(f'owf axs {v(t)} -> sok {v(t)} -> ' for t in thunks)
+            o.append(f'Lemma {n}_replays :\n  forall (axs : list pat) {qs} (s : pat), {incl}{pats_ok}{hyps}\n    '
+                     f'conc {call} = Some s -> compiles_to axs {call} s.')
+            o.append(f'Proof. lib_replays {n}_spec {n}_wf {n}_sok. Qed.')
+            replay_names.append(f'{n}_replays')
         if m.spec_kind is not None:
             o.append(f'Global Opaque {n}.')
         o.append('')
@@ -618,11 +643,15 @@ def translate(repo_src, extra_path):
         return '\n'.join(lines)
     o.append('(** every advertised schema / every replay lemma, as one statement each *)')
     o.append(conj(spec_names, 'all_specs'))
-    o.append('Lemma all_specs_hold : all_specs.\nProof. unfold all_specs. repeat split; '
+    o.append('Lemma all_specs_hold : all_specs.\nProof. unfold all_specs. repeat apply conj; '
              'first [' + ' | '.join(f'exact {nm}' for nm in spec_names) + ']. Qed.\n')
     o.append(conj(wf_names, 'all_wf'))
-    o.append('Lemma all_wf_hold : all_wf.\nProof. unfold all_wf. repeat split; '
+    o.append('Lemma all_wf_hold : all_wf.\nProof. unfold all_wf. repeat apply conj; '
              'first [' + ' | '.join(f'exact {nm}' for nm in wf_names) + ']. Qed.\n')
+
+    o.append(conj(replay_names, 'all_replays'))
+    o.append('Lemma all_replays_hold : all_replays.\nProof. unfold all_replays. repeat apply conj; '
+             'first [' + ' | '.join(f'exact {nm}' for nm in replay_names) + ']. Qed.\n')
 
     # dispatcher for the extracted model (harness requests entry points by index)
     d.append('(** dispatcher for the extracted model: entry point by index *)')
